@@ -173,6 +173,21 @@ def make_catalogue(sc):
         return True
 
     reg("interval.contents", "interval", contents)
+
+    def contents_length(n, k, spec):
+        """one stored byte more (a zero, as raising initialized_size pads) or one
+        fewer: the stored bytes differ although no byte value changed"""
+        if k % 2 == 0 and len(n["contents"]) < n["size"]:
+            n["contents"].append(0)
+        elif n["contents"]:
+            n["contents"].pop()
+        elif n["size"] >= 1:
+            n["contents"].append(0)
+        else:
+            return False
+        return True
+
+    reg("interval.contents-length", "interval", contents_length)
     reg("block.offset", "block", lambda n, k, spec: _bump_int(n, "offset", 0, U64, k))
     reg("block.size", "block", lambda n, k, spec: _bump_int(n, "size", 0, U64, k))
     reg("block.kind", "block", lambda n, k, spec: n.__setitem__("kind", "data" if n["kind"] == "code" else "code") or True)
